@@ -95,7 +95,85 @@ func histRun(toks []string, withObservers bool) []string {
 	return outs
 }
 
+// fieldHistory: construct an object, edit a field that feeds a lazily cached type AFTER construction, use the object as a typed
+// operand and print. With observers, pure queries (Type, String, Ident, LLString) are made between construction and the edit.
+func fieldHistory(kind string, observers bool) string {
+	m := ir.NewModule()
+	user := m.NewFunc("user", types.Void)
+	ub := user.NewBlock("entry")
+	observe := func(v interface {
+		Type() types.Type
+		String() string
+		Ident() string
+	}) {
+		if observers {
+			_ = v.Type()
+			_ = v.String()
+			_ = v.Ident()
+			_ = v.Type().String()
+		}
+	}
+	switch kind {
+	case "func-addrspace":
+		f := m.NewFunc("handler", types.Void)
+		observe(f)
+		f.AddrSpace = 1
+		ub.NewICmp(1, f, f)
+	case "func-sig":
+		f := m.NewFunc("handler", types.Void)
+		observe(f)
+		f.Sig.Variadic = true
+		ub.NewICmp(1, f, f)
+	case "global-addrspace":
+		g := m.NewGlobalDef("g", constant.NewInt(types.I32, 0))
+		observe(g)
+		g.AddrSpace = 3
+		ub.NewLoad(types.I32, g)
+	case "global-contenttype":
+		g := m.NewGlobal("g", types.I32)
+		observe(g)
+		g.ContentType = types.I64
+		ub.NewLoad(types.I64, g)
+	case "alloca-addrspace":
+		a := ub.NewAlloca(types.I32)
+		a.SetName("slot")
+		observe(a)
+		a.AddrSpace = 5
+		ub.NewStore(constant.NewInt(types.I32, 1), a)
+	case "alias-aliasee":
+		g := m.NewGlobalDef("g", constant.NewInt(types.I32, 0))
+		h := m.NewGlobalDef("h", constant.NewInt(types.I64, 0))
+		al := m.NewAlias("al", g)
+		observe(al)
+		al.Aliasee = h
+		ub.NewLoad(types.I64, al)
+	case "param-type":
+		p := ir.NewParam("p", types.I32)
+		f := m.NewFunc("callee", types.Void, p)
+		observe(f)
+		observe(p)
+		p.Typ = types.I64
+		ub.NewCall(f, constant.NewInt(types.I64, 1))
+	default:
+		return "unknown-kind"
+	}
+	ub.NewRet(nil)
+	return safe(func([]string) string { return hexOut([]byte(m.String())) }, nil)
+}
+
 func init() {
+	// C14 oracle on cached-type state: the same construction/edit history prints the same text with and without interleaved pure observers
+	reg("hist.fobs", func(a []string) string {
+		with := fieldHistory(a[0], true)
+		without := fieldHistory(a[0], false)
+		if with == "unknown-kind" {
+			return "FAIL unknown-kind"
+		}
+		if with != without {
+			return "FAIL observers-changed-the-text " + with + " vs " + without
+		}
+		return "ok"
+	})
 	reg("hist.run", func(a []string) string { return strings.Join(histRun(a, true), "|") })
 	// C14 oracle: the final print with observers equals the final print without them
 	reg("hist.obs", func(a []string) string {
